@@ -10,7 +10,7 @@ PROPERTY_FILE = 'Properties/C14.v'
 THEOREMS = ['C14_rules_denotation', 'C14_rules_three_valued_refine', 'C14_interface_unchanged', 'C14_well_formed',
             'C14_function_preserved', 'C14_total_assignments', 'C14_truth_table_preserved',
             'C14_evaluate_partial', 'C14_get_truth_table_partial', 'C14_bench_basis',
-            'C14_helpers_in_blocks', 'C14_partial_assignments_differ', 'C14_example']
+            'C14_helpers_in_blocks', 'C14_partial_assignments_differ', 'C14_arity_needed', 'C14_example']
 PARTIAL = {'C14_evaluate_partial': 'entry-point version of C14_truth_table_preserved: results of evaluate on every Boolean '
                                     'vector are equal whenever both calls return; that the call on the converted circuit '
                                     'returns whenever the call on the original does (completeness of the evaluators, the other '
